@@ -452,14 +452,14 @@ def rule_failed_write_leaves_no_file(ctx, rule_id="C17.commit-last"):
         raise AnalysisError("file-system sink: no open-for-writing found (anchor lost)")
 
 
-def rule_registry_class_attr(ctx):
+def rule_registry_class_attr(ctx, rule_id="C17.registry-class-attr"):
     """A class taken from the registry by a name found in the INPUT can be any registered class of that category.  An
     attribute read from it must exist on every such class (defined by the common base or by every builder), or be read
     with getattr(..., default) / under hasattr: `extensions: {"archive-ext": {"extension_type":
     "toplevel-property-extension"}}` selects a class without _toplevel_properties."""
     run = ctx.run
     prog = ctx.prog
-    R = "C17.registry-class-attr"
+    R = rule_id
     sbase = prog.cls("stix2.base::_STIXBase")
     n = 0
     for fi in sorted(prog.functions.values(), key=lambda f: f.id):
